@@ -241,7 +241,9 @@ func run(c *engine.Ctx, r *engine.Report) {
 			r.Violate(sig, msg, k)
 			return
 		}
-		r.Nontrivial(1)
+		if !(k.Kind == "roundtrip" && k.Len <= 240-len(k.Prefix)) {
+			r.Nontrivial(1) // single-chunk round trips are the trivial cases
+		}
 		if i%9973 == 1 || k.Kind == "malformed" && i%37 == 0 {
 			r.Sample(k)
 		}
@@ -270,7 +272,7 @@ func init() {
 		ID:    "C20",
 		Level: "exploration",
 		Rule: "thorough: every payload length 1..Lmax; quick: every length up to three chunks plus the three lengths around every chunk-count boundary up to Lmax (Lmax = largest length whose entries fit a ClientHello's ALPN list) for both request prefixes with position-coded content (thorough: also seed-random content), adversarial contents at chunk-boundary lengths, foreign names interleaved at every position for selected lengths, every malformed entry prefix+{0,-,x}^0..3; " +
-			"distinct_nontrivial counts cases (all distinct by construction) on which the oracle was evaluated to a verdict",
+			"distinct_nontrivial counts cases (all distinct by construction) other than single-chunk round trips",
 		Assumptions: []string{"payload content beyond the listed patterns is not enumerated (content is irrelevant to a length-driven splitter; adversarial contents cover the delimiter characters)"},
 		Shards:      func(c *engine.Ctx) int { return 16 },
 		Run:         run,
